@@ -20,7 +20,9 @@ PROP = 'C19'
 ATTRS = ['PI_CONTACT_INFO', 'PLATFORM', 'LOCATION', 'DATA_INFO',
          'UNCERTAINTY', 'REVISION', 'OTHER_COMMENTS', 'fmt', 'TFLAG',
          'n_header_lines']
-ATTVALS = ['R0', 'plain text', 'a: b, c', 'x=1; y=2', 'NASA DC-8', '1.5']
+ATTVALS = ['R0', 'plain text', 'a: b, c', 'x=1; y=2', 'NASA DC-8', '1.5',
+           # blank comments are comments too (the reader gives '' for 'KEY:')
+           '', '', ' ']
 
 
 def e6(x):
